@@ -303,125 +303,156 @@ func isReaderIface(v ssa.Value, readerI *types.Interface) bool {
 }
 
 // c10ReleaseBeforeRead: every path from entry to the invoke of FormatReader.Read passes a FormatReader.Release
-// call or the nil edge of a test of the holder that is released.
+// call (directly or inside a helper method that releases-or-finds-nil on all of its own paths) or the nil edge of a
+// test of the holder that is released; after each release the holder is overwritten before the next read.
 func c10ReleaseBeforeRead(c *core.Ctx, f *ssa.Function, readerI *types.Interface) {
 	key := core.FuncKey(f)
-	var reads, releases []ssa.CallInstruction
+	var reads []ssa.CallInstruction
 	for _, ci := range core.Calls(f) {
 		cc := ci.Common()
-		if !cc.IsInvoke() || !isReaderIface(cc.Value, readerI) {
-			continue
-		}
-		switch cc.Method.Name() {
-		case "Read":
+		if cc.IsInvoke() && isReaderIface(cc.Value, readerI) && cc.Method.Name() == "Read" {
 			reads = append(reads, ci)
-		case "Release":
-			releases = append(releases, ci)
 		}
 	}
 	if len(reads) == 0 {
 		c.Unknown("R10b", key+" reads", f.Pos(), "no call of FormatReader.Read found in Ingester.Read")
 		return
 	}
-	if len(releases) == 0 {
+	info := c10Releases(f, readerI, 0)
+	if len(info.sites) == 0 {
 		c.Bad("R10b", key+" release-before-read", core.InstrPos(reads[0]), "Ingester.Read never releases the previous raw record: the previous target stays attached (and visible to xpath queries of the next record)")
 		return
 	}
-	// holder fields: the address(es) loaded as Release argument
-	var holderAddrs []ssa.Value
-	for _, rel := range releases {
-		if u, ok := rel.Common().Args[0].(*ssa.UnOp); ok && u.Op == token.MUL {
-			holderAddrs = append(holderAddrs, u.X)
+	for _, rd := range reads {
+		reached := c10PathAvoidingRelease(f, rd, info)
+		c.Check(!reached, "R10b", key+" release-before-read", core.InstrPos(rd),
+			"every path to reader.Read releases the previous raw record or has a nil holder",
+			"a path reaches reader.Read with a non-nil previous raw record that was not released")
+	}
+	for _, cl := range info.cleared {
+		c.Check(cl.ok, "R10b", key+" holder cleared", cl.pos, "holder overwritten after the release and before the next read", "holder still references the released node when the next record is read")
+	}
+}
+
+type c10Cleared struct {
+	ok  bool
+	pos token.Pos
+}
+
+type c10ReleaseInfo struct {
+	sites       map[*ssa.BasicBlock]ssa.CallInstruction // blocks that release (directly or through a qualifying helper)
+	holderAddrs []ssa.Value
+	cleared     []c10Cleared
+}
+
+// c10Releases finds the releasing call sites of f: invokes of FormatReader.Release, and static calls of repository
+// methods that themselves release-or-find-nil on every path to their exits.
+func c10Releases(f *ssa.Function, readerI *types.Interface, depth int) *c10ReleaseInfo {
+	info := &c10ReleaseInfo{sites: map[*ssa.BasicBlock]ssa.CallInstruction{}}
+	for _, ci := range core.Calls(f) {
+		cc := ci.Common()
+		if cc.IsInvoke() && isReaderIface(cc.Value, readerI) && cc.Method.Name() == "Release" {
+			info.sites[ci.Block()] = ci
+			if u, ok := cc.Args[0].(*ssa.UnOp); ok && u.Op == token.MUL {
+				info.holderAddrs = append(info.holderAddrs, u.X)
+				cleared, bad := false, false
+				core.WalkAfter(ci, func(in ssa.Instruction) bool {
+					switch x := in.(type) {
+					case *ssa.Store:
+						if core.SameValue(x.Addr, u.X) {
+							cleared = true
+							return false
+						}
+					case ssa.CallInstruction:
+						if x.Common().IsInvoke() && isReaderIface(x.Common().Value, readerI) && x.Common().Method.Name() == "Read" {
+							bad = true
+							return false
+						}
+					case *ssa.Return:
+						if !cleared {
+							bad = true
+						}
+					}
+					return true
+				})
+				info.cleared = append(info.cleared, c10Cleared{cleared && !bad, core.InstrPos(ci)})
+			} else {
+				info.cleared = append(info.cleared, c10Cleared{true, core.InstrPos(ci)})
+			}
+			continue
+		}
+		if depth < 2 {
+			if cf := cc.StaticCallee(); cf != nil && cf != f && cf.Blocks != nil && core.InRepo(core.FuncPkg(cf)) && cf.Signature.Recv() != nil {
+				sub := c10Releases(cf, readerI, depth+1)
+				if len(sub.sites) > 0 && !c10PathAvoidingRelease(cf, nil, sub) {
+					info.sites[ci.Block()] = ci
+					info.cleared = append(info.cleared, sub.cleared...)
+				}
+			}
 		}
 	}
+	return info
+}
+
+// c10PathAvoidingRelease: is there a path from f's entry to target (or, if target is nil, to any return) that neither
+// passes a releasing site nor takes the nil edge of a test of a released holder?
+func c10PathAvoidingRelease(f *ssa.Function, target ssa.CallInstruction, info *c10ReleaseInfo) bool {
 	isHolderLoad := func(v ssa.Value) bool {
 		u, ok := v.(*ssa.UnOp)
 		if !ok || u.Op != token.MUL {
 			return false
 		}
-		for _, a := range holderAddrs {
+		for _, a := range info.holderAddrs {
 			if core.SameValue(u.X, a) {
 				return true
 			}
 		}
 		return false
 	}
-	relBlock := map[*ssa.BasicBlock]ssa.CallInstruction{}
-	for _, r := range releases {
-		relBlock[r.Block()] = r
-	}
-	for _, rd := range reads {
-		// edge-level DFS from entry avoiding release blocks and nil-edges
-		seen := map[*ssa.BasicBlock]bool{}
-		reached := false
-		var dfs func(b *ssa.BasicBlock)
-		dfs = func(b *ssa.BasicBlock) {
-			if seen[b] || reached {
+	seen := map[*ssa.BasicBlock]bool{}
+	reached := false
+	var dfs func(b *ssa.BasicBlock)
+	dfs = func(b *ssa.BasicBlock) {
+		if seen[b] || reached {
+			return
+		}
+		seen[b] = true
+		if r, ok := info.sites[b]; ok {
+			if target == nil || b != target.Block() || core.Dominates(r, target) {
 				return
 			}
-			seen[b] = true
-			if r, ok := relBlock[b]; ok {
-				if b != rd.Block() || core.Dominates(r, rd) {
-					return // path passes the release
-				}
-			}
-			if b == rd.Block() {
+		}
+		if target != nil && b == target.Block() {
+			reached = true
+			return
+		}
+		if target == nil {
+			if _, isRet := b.Instrs[len(b.Instrs)-1].(*ssa.Return); isRet {
 				reached = true
 				return
 			}
-			var skip *ssa.BasicBlock
-			if ifi, ok := b.Instrs[len(b.Instrs)-1].(*ssa.If); ok {
-				if bo, ok := ifi.Cond.(*ssa.BinOp); ok {
-					holderCmp := (isHolderLoad(bo.X) && core.IsNilConst(bo.Y)) || (isHolderLoad(bo.Y) && core.IsNilConst(bo.X))
-					if holderCmp && bo.Op == token.NEQ {
-						skip = b.Succs[1] // false edge: holder is nil
-					}
-					if holderCmp && bo.Op == token.EQL {
-						skip = b.Succs[0]
-					}
+		}
+		var skip *ssa.BasicBlock
+		if ifi, ok := b.Instrs[len(b.Instrs)-1].(*ssa.If); ok {
+			if bo, ok := ifi.Cond.(*ssa.BinOp); ok {
+				holderCmp := (isHolderLoad(bo.X) && core.IsNilConst(bo.Y)) || (isHolderLoad(bo.Y) && core.IsNilConst(bo.X))
+				if holderCmp && bo.Op == token.NEQ {
+					skip = b.Succs[1]
 				}
-			}
-			for i, s := range b.Succs {
-				if skip != nil && s == skip && !(len(b.Succs) == 2 && b.Succs[0] == b.Succs[1]) {
-					_ = i
-					// the nil edge: nothing to release on this path; continue from s but mark as ok path:
-					// we must still make sure no *other* unreleased path exists, so we simply do not explore it.
-					continue
+				if holderCmp && bo.Op == token.EQL {
+					skip = b.Succs[0]
 				}
-				dfs(s)
 			}
 		}
-		dfs(f.Blocks[0])
-		c.Check(!reached, "R10b", key+" release-before-read", core.InstrPos(rd),
-			"every path to reader.Read releases the previous raw record or has a nil holder",
-			"a path reaches reader.Read with a non-nil previous raw record that was not released")
-	}
-	// holder cleared after release
-	for _, rel := range releases {
-		u, ok := rel.Common().Args[0].(*ssa.UnOp)
-		if !ok {
-			c.OK("R10b", key+" holder cleared", core.InstrPos(rel), "released value is not loaded from a holder field")
-			continue
-		}
-		cleared := false
-		bad := false
-		core.WalkAfter(rel, func(in ssa.Instruction) bool {
-			switch x := in.(type) {
-			case *ssa.Store:
-				if core.SameValue(x.Addr, u.X) {
-					cleared = true
-					return false
-				}
-			case ssa.CallInstruction:
-				if x.Common().IsInvoke() && isReaderIface(x.Common().Value, readerI) && x.Common().Method.Name() == "Read" {
-					bad = true
-					return false
-				}
+		for _, s := range b.Succs {
+			if skip != nil && s == skip && b.Succs[0] != b.Succs[1] {
+				continue
 			}
-			return true
-		})
-		c.Check(cleared && !bad, "R10b", key+" holder cleared", core.InstrPos(rel), "holder overwritten after the release and before the next read", "holder still references the released node when the next record is read")
+			dfs(s)
+		}
 	}
+	dfs(f.Blocks[0])
+	return reached
 }
 
 // c10FailureLeavesReader: on the branch taken when ParseNode failed, the only FormatReader method reachable
